@@ -35,22 +35,6 @@ let u_search c =
       let rs = rs_of c in
       let w = wsettings_of rs (n_of_int wrap) (n_of_int 20000) bbb in
       let lines = U_lines.mk_lines ls in
-      if Sys.getenv_opt "SEARCH_PROF" <> None then begin
-        let t0 = Unix.gettimeofday () in
-        let infos = List.map tokinfo_of (ftokens a) in
-        let lvs = mk_lviews infos lines in
-        let t1 = Unix.gettimeofday () in
-        List.iter (fun (l : lline) ->
-          let ta = Unix.gettimeofday () in
-          let tys = List.filter_map (fun t -> List.nth_opt infos (int_of_nat t)) l.ll_toks |> List.map (fun i -> i.ti_ty) in
-          let tb = Unix.gettimeofday () in
-          let lc = line_contexts_new l.ll_type (nat_of_int (List.length l.ll_toks)) tys in
-          let tc = Unix.gettimeofday () in
-          Printf.printf "  L toks %d ctxs %d  tys %.3f lc %.3f\n" (List.length l.ll_toks) (int_of_nat lc.lc_count) (tb -. ta) (tc -. tb)) lines;
-        let st = wrap_phase1 w infos lines in
-        let t2 = Unix.gettimeofday () in
-        Printf.printf "P %s views %.3f phase1(incl views) %.3f lines %d events %d\n" c.id (t1 -. t0) (t2 -. t1) (List.length lvs) (List.length st.ss_log)
-      end;
       let ((fin, evs), err) = olf_model rs w fms lines (ftokens a) in
       let m = List.concat_map ev_lines evs in
       let impl = List.rev c.wevents in
